@@ -62,7 +62,7 @@ variables
     chg = 0, envn = 0,
     myargs = NoArgs, must = [k \in Kinds |-> {}],  \* selector thread locals
     res = [rs |-> <<>>, ws |-> <<>>],
-    todoR = <<>>, todoW = <<>>, cur = NoCb, ret = "m_top";   \* main thread locals
+    todoR = <<>>, todoW = <<>>, cur = NoCb, ret = "m_top", cret = "m_top";   \* main thread locals
 
 define {
     ReadyNow(k) == IF k = "r" THEN ready["r"] \cup (IF waker > 0 THEN {0} ELSE {}) ELSE ready["w"]
@@ -129,6 +129,13 @@ m_run:      \* inside _handle_select: dispatch, or the body of the current callb
     } or {      \* callback body: registration change
         await cur # NoCb /\ chg < MaxChg;
         RegOpRun()
+    } or {      \* callback body: the application closes the selector from inside a callback
+        await cur # NoCb /\ mutex = 0 /\ "close" \in Hows /\ (~closeCalled \/ how = "atexit");
+        how := "close";
+        closeCalled := TRUE;
+        mutex := 1;
+        cret := "m_run";
+        goto m_cl_body
     } or {      \* _handle_event(r, _readers) for the next fd still registered
         await NextR # 0;
         if (todoR[NextR] = 0) {   \* _consume_waker: recv(1024)
@@ -170,7 +177,7 @@ m_cl_rel:
     mutex := 0;
 m_cl_wk:    \* _wake_selector() / _waker_w.send
     WakeSend();
-    if (~started) { if (how = "atexit") { goto m_top } else { goto m_cl_rm } };
+    if (~started) { if (how = "atexit") { goto m_top } else { goto m_cl_rm } };   \* _thread is None
 m_cl_join:  \* self._thread.join()
     await sdone;
     if (how = "atexit") { goto m_top };
@@ -179,7 +186,7 @@ m_cl_rm:    \* remove_reader(_waker_r) and its _wake_selector
     WakeSend();
 m_cl_end:   \* sockets closed, _closed = True
     closed := TRUE;
-    goto m_top
+    if (cret = "m_top") { goto m_top } else { cret := "m_top"; goto m_run }
 }
 
 process (sel = 2)
@@ -232,10 +239,10 @@ e_loop:
     }
 }
 } *)
-\* BEGIN TRANSLATION (chksum(pcal) = "320e5d2d" /\ chksum(tla) = "4bb4a84b")
+\* BEGIN TRANSLATION
 VARIABLES pc, mutex, waitset, selArgs, closing, waker, reg, ready, queue, 
           started, sdone, closeCalled, closed, how, chg, envn, myargs, must, 
-          res, todoR, todoW, cur, ret
+          res, todoR, todoW, cur, ret, cret
 
 (* define statement *)
 ReadyNow(k) == IF k = "r" THEN ready["r"] \cup (IF waker > 0 THEN {0} ELSE {}) ELSE ready["w"]
@@ -246,7 +253,7 @@ NextW == FirstReg(todoW, reg["w"])
 
 vars == << pc, mutex, waitset, selArgs, closing, waker, reg, ready, queue, 
            started, sdone, closeCalled, closed, how, chg, envn, myargs, must, 
-           res, todoR, todoW, cur, ret >>
+           res, todoR, todoW, cur, ret, cret >>
 
 ProcSet == {1} \cup {2} \cup {3}
 
@@ -273,6 +280,7 @@ Init == (* Global variables *)
         /\ todoW = <<>>
         /\ cur = NoCb
         /\ ret = "m_top"
+        /\ cret = "m_top"
         /\ pc = [self \in ProcSet |-> CASE self = 1 -> "m_init"
                                         [] self = 2 -> "s_acq"
                                         [] self = 3 -> "e_loop"]
@@ -287,7 +295,7 @@ m_init == /\ pc[1] = "m_init"
           /\ pc' = [pc EXCEPT ![1] = "m_top"]
           /\ UNCHANGED << mutex, waitset, selArgs, closing, ready, queue, 
                           started, sdone, closeCalled, closed, how, chg, envn, 
-                          myargs, must, res, todoR, todoW, cur, ret >>
+                          myargs, must, res, todoR, todoW, cur, ret, cret >>
 
 m_top == /\ pc[1] = "m_top"
          /\ \/ /\ ~started
@@ -323,13 +331,13 @@ m_top == /\ pc[1] = "m_top"
                /\ pc' = [pc EXCEPT ![1] = "m_cl_body"]
                /\ UNCHANGED <<reg, queue, started, chg, todoR, todoW, ret>>
          /\ UNCHANGED << waitset, selArgs, closing, waker, ready, sdone, 
-                         closed, envn, myargs, must, res, cur >>
+                         closed, envn, myargs, must, res, cur, cret >>
 
 m_run == /\ pc[1] = "m_run"
          /\ \/ /\ cur # NoCb /\ cur.f \in ready[cur.k]
                /\ ready' = [ready EXCEPT ![cur.k] = ready[cur.k] \ {cur.f}]
                /\ pc' = [pc EXCEPT ![1] = "m_run"]
-               /\ UNCHANGED <<mutex, waker, reg, chg, todoR, todoW, cur, ret>>
+               /\ UNCHANGED <<mutex, waker, reg, closeCalled, how, chg, todoR, todoW, cur, ret, cret>>
             \/ /\ cur # NoCb /\ chg < MaxChg
                /\ \E op \in {"add", "rem"}:
                     \E k \in Kinds:
@@ -344,7 +352,14 @@ m_run == /\ pc[1] = "m_run"
                                               /\ pc' = [pc EXCEPT ![1] = "m_wk"]
                               ELSE /\ pc' = [pc EXCEPT ![1] = "m_run"]
                                    /\ UNCHANGED << reg, ret >>
-               /\ UNCHANGED <<mutex, waker, ready, todoR, todoW, cur>>
+               /\ UNCHANGED <<mutex, waker, ready, closeCalled, how, todoR, todoW, cur, cret>>
+            \/ /\ cur # NoCb /\ mutex = 0 /\ "close" \in Hows /\ (~closeCalled \/ how = "atexit")
+               /\ how' = "close"
+               /\ closeCalled' = TRUE
+               /\ mutex' = 1
+               /\ cret' = "m_run"
+               /\ pc' = [pc EXCEPT ![1] = "m_cl_body"]
+               /\ UNCHANGED <<waker, reg, ready, chg, todoR, todoW, cur, ret>>
             \/ /\ NextR # 0
                /\ IF todoR[NextR] = 0
                      THEN /\ waker' = (IF waker > RecvMax THEN waker - RecvMax ELSE 0)
@@ -353,22 +368,22 @@ m_run == /\ pc[1] = "m_run"
                           /\ waker' = waker
                /\ todoR' = Drop(todoR, NextR)
                /\ pc' = [pc EXCEPT ![1] = "m_run"]
-               /\ UNCHANGED <<mutex, reg, ready, chg, todoW, ret>>
+               /\ UNCHANGED <<mutex, reg, ready, closeCalled, how, chg, todoW, ret, cret>>
             \/ /\ NextR = 0 /\ NextW # 0
                /\ cur' = [k |-> "w", f |-> todoW[NextW]]
                /\ todoR' = <<>>
                /\ todoW' = Drop(todoW, NextW)
                /\ pc' = [pc EXCEPT ![1] = "m_run"]
-               /\ UNCHANGED <<mutex, waker, reg, ready, chg, ret>>
+               /\ UNCHANGED <<mutex, waker, reg, ready, closeCalled, how, chg, ret, cret>>
             \/ /\ NextR = 0 /\ NextW = 0 /\ mutex = 0
                /\ cur' = NoCb
                /\ todoR' = <<>>
                /\ todoW' = <<>>
                /\ mutex' = 1
                /\ pc' = [pc EXCEPT ![1] = "m_ss_body"]
-               /\ UNCHANGED <<waker, reg, ready, chg, ret>>
+               /\ UNCHANGED <<waker, reg, ready, closeCalled, how, chg, ret, cret>>
          /\ UNCHANGED << waitset, selArgs, closing, queue, started, sdone, 
-                         closeCalled, closed, how, envn, myargs, must, res >>
+                         closed, envn, myargs, must, res >>
 
 m_wk == /\ pc[1] = "m_wk"
         /\ \/ /\ waker < MaxW
@@ -383,7 +398,7 @@ m_wk == /\ pc[1] = "m_wk"
                    /\ pc' = [pc EXCEPT ![1] = "m_run"]
         /\ UNCHANGED << mutex, waitset, selArgs, closing, reg, ready, queue, 
                         started, sdone, closeCalled, closed, how, chg, envn, 
-                        myargs, must, res, todoR, todoW, cur >>
+                        myargs, must, res, todoR, todoW, cur, cret >>
 
 m_ss_acq == /\ pc[1] = "m_ss_acq"
             /\ mutex = 0
@@ -392,7 +407,7 @@ m_ss_acq == /\ pc[1] = "m_ss_acq"
             /\ UNCHANGED << waitset, selArgs, closing, waker, reg, ready, 
                             queue, started, sdone, closeCalled, closed, how, 
                             chg, envn, myargs, must, res, todoR, todoW, cur, 
-                            ret >>
+                            ret, cret >>
 
 m_ss_body == /\ pc[1] = "m_ss_body"
              /\ selArgs' = [some |-> TRUE, r |-> reg["r"], w |-> reg["w"]]
@@ -400,7 +415,7 @@ m_ss_body == /\ pc[1] = "m_ss_body"
              /\ pc' = [pc EXCEPT ![1] = "m_ss_rel"]
              /\ UNCHANGED << mutex, closing, waker, reg, ready, queue, started, 
                              sdone, closeCalled, closed, how, chg, envn, 
-                             myargs, must, res, todoR, todoW, cur, ret >>
+                             myargs, must, res, todoR, todoW, cur, ret, cret >>
 
 m_ss_rel == /\ pc[1] = "m_ss_rel"
             /\ mutex' = 0
@@ -408,7 +423,7 @@ m_ss_rel == /\ pc[1] = "m_ss_rel"
             /\ UNCHANGED << waitset, selArgs, closing, waker, reg, ready, 
                             queue, started, sdone, closeCalled, closed, how, 
                             chg, envn, myargs, must, res, todoR, todoW, cur, 
-                            ret >>
+                            ret, cret >>
 
 m_cl_body == /\ pc[1] = "m_cl_body"
              /\ closing' = TRUE
@@ -416,7 +431,7 @@ m_cl_body == /\ pc[1] = "m_cl_body"
              /\ pc' = [pc EXCEPT ![1] = "m_cl_rel"]
              /\ UNCHANGED << mutex, selArgs, waker, reg, ready, queue, started, 
                              sdone, closeCalled, closed, how, chg, envn, 
-                             myargs, must, res, todoR, todoW, cur, ret >>
+                             myargs, must, res, todoR, todoW, cur, ret, cret >>
 
 m_cl_rel == /\ pc[1] = "m_cl_rel"
             /\ mutex' = 0
@@ -424,7 +439,7 @@ m_cl_rel == /\ pc[1] = "m_cl_rel"
             /\ UNCHANGED << waitset, selArgs, closing, waker, reg, ready, 
                             queue, started, sdone, closeCalled, closed, how, 
                             chg, envn, myargs, must, res, todoR, todoW, cur, 
-                            ret >>
+                            ret, cret >>
 
 m_cl_wk == /\ pc[1] = "m_cl_wk"
            /\ \/ /\ waker < MaxW
@@ -439,7 +454,7 @@ m_cl_wk == /\ pc[1] = "m_cl_wk"
                  ELSE /\ pc' = [pc EXCEPT ![1] = "m_cl_join"]
            /\ UNCHANGED << mutex, waitset, selArgs, closing, reg, ready, queue, 
                            started, sdone, closeCalled, closed, how, chg, envn, 
-                           myargs, must, res, todoR, todoW, cur, ret >>
+                           myargs, must, res, todoR, todoW, cur, ret, cret >>
 
 m_cl_join == /\ pc[1] = "m_cl_join"
              /\ sdone
@@ -449,7 +464,7 @@ m_cl_join == /\ pc[1] = "m_cl_join"
              /\ UNCHANGED << mutex, waitset, selArgs, closing, waker, reg, 
                              ready, queue, started, sdone, closeCalled, closed, 
                              how, chg, envn, myargs, must, res, todoR, todoW, 
-                             cur, ret >>
+                             cur, ret, cret >>
 
 m_cl_rm == /\ pc[1] = "m_cl_rm"
            /\ reg' = [reg EXCEPT !["r"] = reg["r"] \ {0}]
@@ -461,11 +476,15 @@ m_cl_rm == /\ pc[1] = "m_cl_rm"
            /\ pc' = [pc EXCEPT ![1] = "m_cl_end"]
            /\ UNCHANGED << mutex, waitset, selArgs, closing, ready, queue, 
                            started, sdone, closeCalled, closed, how, chg, envn, 
-                           myargs, must, res, todoR, todoW, cur, ret >>
+                           myargs, must, res, todoR, todoW, cur, ret, cret >>
 
 m_cl_end == /\ pc[1] = "m_cl_end"
             /\ closed' = TRUE
-            /\ pc' = [pc EXCEPT ![1] = "m_top"]
+            /\ IF cret = "m_top"
+                  THEN /\ pc' = [pc EXCEPT ![1] = "m_top"]
+                       /\ cret' = cret
+                  ELSE /\ cret' = "m_top"
+                       /\ pc' = [pc EXCEPT ![1] = "m_run"]
             /\ UNCHANGED << mutex, waitset, selArgs, closing, waker, reg, 
                             ready, queue, started, sdone, closeCalled, how, 
                             chg, envn, myargs, must, res, todoR, todoW, cur, 
@@ -481,7 +500,7 @@ s_acq == /\ pc[2] = "s_acq"
          /\ pc' = [pc EXCEPT ![2] = "s_cs"]
          /\ UNCHANGED << waitset, selArgs, closing, waker, reg, ready, queue, 
                          started, sdone, closeCalled, closed, how, chg, envn, 
-                         myargs, must, res, todoR, todoW, cur, ret >>
+                         myargs, must, res, todoR, todoW, cur, ret, cret >>
 
 s_cs == /\ pc[2] = "s_cs"
         /\ IF ~selArgs.some /\ ~closing
@@ -502,7 +521,7 @@ s_cs == /\ pc[2] = "s_cs"
                    /\ UNCHANGED waitset
         /\ UNCHANGED << closing, waker, reg, ready, queue, started, 
                         closeCalled, closed, how, chg, envn, must, res, todoR, 
-                        todoW, cur, ret >>
+                        todoW, cur, ret, cret >>
 
 s_woke == /\ pc[2] = "s_woke"
           /\ 2 \notin waitset /\ mutex = 0
@@ -510,7 +529,7 @@ s_woke == /\ pc[2] = "s_woke"
           /\ pc' = [pc EXCEPT ![2] = "s_cs"]
           /\ UNCHANGED << waitset, selArgs, closing, waker, reg, ready, queue, 
                           started, sdone, closeCalled, closed, how, chg, envn, 
-                          myargs, must, res, todoR, todoW, cur, ret >>
+                          myargs, must, res, todoR, todoW, cur, ret, cret >>
 
 s_sel_begin == /\ pc[2] = "s_sel_begin"
                /\ must' = [k \in Kinds |-> ReadyNow(k) \cap ArgsOf(myargs, k)]
@@ -518,7 +537,7 @@ s_sel_begin == /\ pc[2] = "s_sel_begin"
                /\ UNCHANGED << mutex, waitset, selArgs, closing, waker, reg, 
                                ready, queue, started, sdone, closeCalled, 
                                closed, how, chg, envn, myargs, res, todoR, 
-                               todoW, cur, ret >>
+                               todoW, cur, ret, cret >>
 
 s_sel_end == /\ pc[2] = "s_sel_end"
              /\ \E rs \in SeqsBetween(must["r"], ReadyNow("r") \cap myargs.r):
@@ -530,7 +549,7 @@ s_sel_end == /\ pc[2] = "s_sel_end"
              /\ pc' = [pc EXCEPT ![2] = "s_post"]
              /\ UNCHANGED << mutex, waitset, selArgs, closing, waker, reg, 
                              ready, queue, started, sdone, closeCalled, closed, 
-                             how, chg, envn, todoR, todoW, cur, ret >>
+                             how, chg, envn, todoR, todoW, cur, ret, cret >>
 
 s_post == /\ pc[2] = "s_post"
           /\ queue' = Append(queue, res)
@@ -538,7 +557,7 @@ s_post == /\ pc[2] = "s_post"
           /\ pc' = [pc EXCEPT ![2] = "s_acq"]
           /\ UNCHANGED << mutex, waitset, selArgs, closing, waker, reg, ready, 
                           started, sdone, closeCalled, closed, how, chg, envn, 
-                          myargs, must, todoR, todoW, cur, ret >>
+                          myargs, must, todoR, todoW, cur, ret, cret >>
 
 sel == s_acq \/ s_cs \/ s_woke \/ s_sel_begin \/ s_sel_end \/ s_post
 
@@ -552,7 +571,7 @@ e_loop == /\ pc[3] = "e_loop"
           /\ pc' = [pc EXCEPT ![3] = "e_loop"]
           /\ UNCHANGED << mutex, waitset, selArgs, closing, waker, reg, queue, 
                           started, sdone, closeCalled, closed, how, chg, 
-                          myargs, must, res, todoR, todoW, cur, ret >>
+                          myargs, must, res, todoR, todoW, cur, ret, cret >>
 
 env == e_loop
 
@@ -585,7 +604,11 @@ TypeOK ==
    loop's callback queue; _handle_select holds it until it calls _start_select again. *)
 TokArgs == IF selArgs.some THEN 1 ELSE 0
 TokSel  == IF pc[2] \in {"s_sel_begin", "s_sel_end", "s_post"} THEN 1 ELSE 0
-TokMain == IF ~started \/ pc[1] \in {"m_ss_acq", "m_ss_body", "m_run"} \/ (pc[1] = "m_wk" /\ ret = "m_run")
+CloseLabels == {"m_cl_body", "m_cl_rel", "m_cl_wk", "m_cl_join", "m_cl_rm", "m_cl_end"}
+TokMain == IF \/ ~started
+              \/ pc[1] \in {"m_ss_acq", "m_ss_body", "m_run"}
+              \/ (pc[1] = "m_wk" /\ ret = "m_run")
+              \/ (pc[1] \in CloseLabels /\ cret = "m_run")
            THEN 1 ELSE 0
 (* at most one select outstanding: exactly one token, so never two selects / two result callbacks *)
 OneSelect == TokArgs + TokSel + Len(queue) + TokMain = 1
@@ -597,7 +620,7 @@ MutexOK == /\ (mutex = 1) = (pc[1] \in {"m_ss_body", "m_ss_rel", "m_cl_body", "m
 (* a waiting selector thread has nothing to do: no notify is ever lost *)
 NoLostNotify == 2 \in waitset => (~selArgs.some /\ ~closing /\ pc[2] = "s_woke")
 (* callbacks are dispatched only by main-thread steps, while the selector thread does not select *)
-CallbackOnMain == cur # NoCb => (pc[1] \in {"m_run", "m_wk"} /\ TokSel = 0)
+CallbackOnMain == cur # NoCb => (pc[1] \in {"m_run", "m_wk"} \cup CloseLabels /\ TokMain = 1 /\ TokSel = 0)
 (* readiness never decreases while a select is in progress (justifies the select contract used) *)
 NoUnreadyDuringSelect ==
     pc[2] = "s_sel_end" => \A k \in Kinds : must[k] \subseteq ReadyNow(k) \cap ArgsOf(myargs, k)
@@ -607,7 +630,6 @@ SelectBlocked == pc[2] = "s_sel_end" /\ \A k \in Kinds : ReadyNow(k) \cap ArgsOf
 NoStaleSleep ==
     (SelectBlocked /\ pc[1] = "m_top" /\ ~closed) => (myargs.r = reg["r"] /\ myargs.w = reg["w"])
 (* close() returns only with the selector thread stopped *)
-CloseStops == (pc[1] \in {"m_cl_rm", "m_cl_end"} \/ closed) => (started => (sdone \/ pc[1] = "m_top" \/ TokMain = 1))
 JoinedStopped == pc[1] \in {"m_cl_rm", "m_cl_end"} => (started => sdone)
 
 (* Deadlock freedom.  Steps the application or the environment may or may not take (registration
